@@ -28,7 +28,7 @@ CLAIMED = {
         category="exploration", design_ref="DESIGN.md 3/C03, 2.2",
         engine="hypothesis+enumeration",
         technique="generated-input search with an independent QBE IL validator as oracle (parser + SSA/dominance/class/phi/call checks), differential data size/alignment against clang --target objects, RLIMIT_FSIZE write-fault injection",
-        text="Every module cproc-qbe emits with status 0 for corpus files, its own sources, compiling token-mutants and generated programs on the "
+        text="Every module cproc-qbe emits with status 0 for corpus files, its own sources, compiling token-mutants, generated programs and generated static initialisers (C07's generator) on the "
              "three targets is parsed and validated by vlib/ilcheck.py; data definitions are compared in size/alignment with the C object as laid "
              "out by clang; output-failure injection checks that status 0 is only returned with the complete output. Exploration level.",
         note="ilcheck.py is written from QBE's IL reference, not run against QBE itself (QBE is not installed); rules are permissive where QBE's behaviour is uncertain."),
@@ -68,10 +68,10 @@ CLAIMED = {
         note="clang 14 is the image oracle (gcc -pedantic-errors filters invalid generated code); anonymous relocation targets are compared by content; automatic half excludes unions (unspecified padding bytes)."),
     "C04": dict(
         category="exploration", design_ref="DESIGN.md 3/C04",
-        engine="hypothesis",
+        engine="hypothesis+enumeration",
         technique="model-based property testing: generated constant expressions with values and types predicted by an independent C arithmetic model, observed through every folding context (two-directional: accepted with the right value, rejected with the wrong one); clang arbitrates a mismatch",
         text="Generated constant expressions (all literal bases/suffixes/magnitudes, float literals, character and enum constants, sizeof/_Alignof/offsetof, all casts and operators) are "
-             "folded by cproc in static initialisers, static assertions, array bounds, enumerators, case labels, bit-field widths, _Alignas and ?: conditions on three targets; "
+             "and a systematic operator x operand-type x boundary-value table (119 k rows over int/unsigned/long/unsigned long, a seed-selected fifth in quick, all in thorough) are folded by cproc in static initialisers, static assertions, array bounds, enumerators, case labels, bit-field widths, _Alignas and ?: conditions on three targets; "
              "emitted bytes must equal the model's value in the model's type, the negated assertion and a duplicate case label must be rejected; address constants are compared as (symbol, offset).",
         note="cmodel.py is the oracle (cross-validated with gcc/clang through C01's run-time twin 'exprs' and by clang arbitration of every mismatch); thread-local initialisers use the same emitdata path and are covered by C07."),
     "C05": dict(
@@ -103,14 +103,14 @@ CLAIMED = {
     "C13": dict(
         category="exploration", design_ref="DESIGN.md 3/C13, 4",
         engine="enumeration+hypothesis",
-        technique="bounded-exhaustive enumeration of punctuator strings and keyword perturbations plus Hypothesis token texts with a backslash-newline inserted at every position, tokenised by cproc (hook H1) and by an independent C11 6.4 reference lexer",
+        technique="bounded-exhaustive enumeration of punctuator strings and keyword perturbations plus Hypothesis token texts with backslash-newlines (single, runs, pairs) inserted at every position, tokenised by cproc (hook H1) and by an independent C11 6.4 reference lexer",
         text="All strings of length <= 3 over the 25-character punctuator alphabet (plus 10 % of length 4 per seed; all 406 900 in thorough), every keyword spelling of C11/C23/GNU alternates with all one-character "
-             "perturbations (also hook-free through acceptance of `int <word> = 1;`), and generated texts of all token classes with comments and every single-splice variant are tokenised identically by cproc and clex.py.",
+             "perturbations (also hook-free through acceptance of `int <word> = 1;`), and generated texts of all token classes with comments and every variant with one backslash-newline, a run of two or three adjacent ones, or two separate ones are tokenised identically by cproc and clex.py.",
         note="clex.py is the oracle (written from C11 6.4; digraphs are documented as not implemented and excluded); hook H1 is trusted to print what next() returns, cross-checked hook-free for keywords."),
     "C11": dict(
         category="exploration", design_ref="DESIGN.md 3/C11",
         engine="hypothesis",
-        technique="model-based property testing: generated programs decorated with line markers, #line, splices, multi-line comments and invocations; the location in cproc's diagnostic is compared with a presumed-location tracker written from C11 6.10.4, cross-checked per case against gcc's location",
+        technique="model-based property testing: generated programs decorated with line markers, #line, splices (also runs of backslash-only lines directly after a directive), multi-line comments and invocations; the location in cproc's diagnostic is compared with a presumed-location tracker written from C11 6.10.4, cross-checked per case against gcc's location",
         text="One catalogue violation is placed on known physical line(s) of a decorated valid program; the first diagnostic must have the form file:line:col: error: and name the presumed file and one of the "
              "presumed lines the construct occupies. Cases where gcc's reported location disagrees with the tracker are discarded.",
         note="Only constructs whose diagnostic is raised at one of their own tokens are used; one recorded finding (file-scope object of incomplete type diagnosed at end of unit) is replayed separately."),
@@ -131,7 +131,7 @@ CLAIMED = {
     "C16": dict(
         category="exploration", design_ref="DESIGN.md 3/C16",
         engine="rapidcheck+hypothesis",
-        technique="model-based testing: rapidcheck operation histories against map.c with a std::unordered_map model and engineered hash collisions; Hypothesis scope trees with systematic shadowing checked against the generator's own scope model; goto chains executed via il2c; macro and string-literal identity",
+        technique="model-based testing: rapidcheck operation histories against map.c with a std::unordered_map model and engineered hash collisions; Hypothesis scope trees with systematic shadowing checked against the generator's own scope model; goto chains executed via il2c; macro define/undef/use histories over hash-colliding names against a dictionary model; string-literal identity",
         text="(a) map.c linked in-process: insert/lookup/overwrite/reinit histories with keys colliding in the low bits of the table hash for every table size, model and structural invariants after every step. "
              "(b) generated units with up to 5000 (50000 thorough) identifiers, 200-deep scopes and shadowing between enumeration constants, typedefs, objects and tags: every use must denote the declaration the scope model selects; "
              "5000-label goto chains, 50000 macros and prefix-sharing string literals of every width resolve to their own entity.",
@@ -148,7 +148,7 @@ CLAIMED = {
     "C02": dict(
         category="exploration", design_ref="DESIGN.md 3/C02",
         engine="hypothesis+enumeration",
-        technique="differential testing of stage 1 (gcc-built) against stage 2 (cproc's own IL for its sources, translated by il2c and built with gcc) on generated valid programs, catalogue violations, token mutants, the test corpus and cproc's own sources; bootstrap fixed-point comparison",
+        technique="differential testing of stage 1 (gcc-built) against stage 2 (cproc's own IL for its sources, translated by il2c and built with gcc) on generated valid programs, constant-expression units and the C04 fold table (stage 2 folds with cproc's own lowering of eval.c), catalogue violations, token mutants, the test corpus and cproc's own sources; bootstrap fixed-point comparison",
         text="Stage 2 is rebuilt from the current tree on every run. Both binaries (same basename, different directories) are run with identical arguments on every input x target x {compile, -E}; stdout, stderr and exit status must be "
              "byte-identical, and stage 2 must reproduce the stage-1 IL of every source of the compiler.",
         note="Stage 2 goes through il2c + gcc -O1 rather than QBE + as + ld, so defects of the real backend are out of reach; inputs on which stage 1 crashes are skipped (C19)."),
